@@ -267,21 +267,28 @@ def splitOnN (c : Nat) : Bytes → List Bytes
       | [] => [[x]]
       | h :: t => (x :: h) :: t
 
-/-- `int(size.strip().decode('ascii'), 16)` for plain hex digits; text that is not plain hex digits is a
-`ValueError` unless it is one of the other spellings Python accepts (sign, `0x` prefix, `_` between digits),
-which are outside the model -/
+/-- `int(size.strip().decode('ascii'), 16)`: `bytes.strip()`, then Python's integer literal syntax for base 16 —
+surrounding ASCII white space (the same six characters `bytes.strip()` removes), an optional sign, an optional `0x` / `0X` prefix (after which one underscore may follow),
+hex digits with single underscores between them.  Anything else is a `ValueError`; non-ASCII bytes a
+`UnicodeDecodeError`.  A negative size (`-1f`; the code then slices from the end of the buffer) is outside the model. -/
 def pyIntHex (bs : Bytes) : Except Err Nat :=
   let t := stripN bs
   if t.any (fun b => b ≥ 128) then .error .unicodeError
   else match hexDigits? t 0 with
     | some n => if t.isEmpty then .error .valueError else .ok n
     | none =>
-      let t1 := match t with | 43 :: r => r | 45 :: r => r | r => r
+      let u := t
+      let neg := match u with | 45 :: _ => true | _ => false
+      let t1 := match u with | 43 :: r => r | 45 :: r => r | r => r
       let t2 := match t1 with
         | 48 :: 120 :: 95 :: r => r | 48 :: 88 :: 95 :: r => r
         | 48 :: 120 :: r => r | 48 :: 88 :: r => r
         | r => r
-      if (splitOnN 95 t2).all (fun g => !g.isEmpty && g.all (fun b => (hexVal? b).isSome)) then .error .outOfModel
+      let groups := splitOnN 95 t2
+      if groups.all (fun g => !g.isEmpty && g.all (fun b => (hexVal? b).isSome)) then
+        match hexDigits? groups.flatten 0 with
+        | some n => if neg && n ≠ 0 then .error .outOfModel else .ok n
+        | none => .error .valueError
       else .error .valueError
 
 /-- chunk extension parameters: `name.strip() -> value.strip() or None`, latin-1 decoded, insertion ordered -/
